@@ -29,7 +29,11 @@ KERNELS = [
     ("core.py", "upstream_count", {"idxs_ds": "idx", "mv": "mv", "mask": "omask"}),
     ("streams.py", "stream_order", {"idxs_ds": "idx", "seq": "seq", "idxs_us_main": "idx", "mask": "omask", "mv": "mv"}),
     ("streams.py", "strahler_order", {"idxs_ds": "idx", "seq": "seq", "mask": "omask"}),
+    ("core.py", "fillnodata_downstream", {"idxs_ds": "idx", "seq": "seq", "data": "z", "nodata": "Z", "how": "str"}),
+    ("dem.py", "height_above_nearest_drain", {"idxs_ds": "idx", "seq": "seq", "drain": "b", "elevtn": "z"}),
 ]
+# string-valued options are integers in the models (the harness uses the same table)
+STRINGS = {"how": {"min": 0, "max": 1, "sum": 2}}
 # calls to other translated kernels allowed in a prologue: callee -> (module alias, result type, argument order)
 CALLS = {"upstream_count": ("core", "z", ["idxs_ds", "mask"])}
 
@@ -48,14 +52,18 @@ class K:
             t = self.ty.get(e.id)
             if t is None:
                 fail(e, self.fn, f"untyped name {e.id}")
-            return {"idx": "idxarr", "z": "zarr", "Z": "Z", "nat": "nat", "mv": "mv", "omask": "omask", "bool": "bool"}[t]
-        if isinstance(e, ast.Constant) and isinstance(e.value, (int,)) and not isinstance(e.value, bool):
+            return {"idx": "idxarr", "z": "zarr", "b": "barr", "Z": "Z", "nat": "nat", "mv": "mv", "omask": "omask", "bool": "bool", "str": "str"}[t]
+        if isinstance(e, ast.Constant) and isinstance(e.value, bool):
+            return "bool"
+        if isinstance(e, ast.Constant) and isinstance(e.value, str):
+            return "strconst"
+        if isinstance(e, ast.Constant) and (isinstance(e.value, int) or (isinstance(e.value, float) and e.value.is_integer())):
             return "Z"
         if isinstance(e, ast.UnaryOp) and isinstance(e.op, ast.USub):
             return "Z"
         if isinstance(e, ast.Subscript):
             t = self.typ(e.value)
-            return {"idxarr": "nat", "zarr": "Z"}.get(t) or fail(e, self.fn, "subscript of a non-array")
+            return {"idxarr": "nat", "zarr": "Z", "barr": "bool"}.get(t) or fail(e, self.fn, "subscript of a non-array")
         if isinstance(e, (ast.Compare, ast.BoolOp)) or (isinstance(e, ast.UnaryOp) and isinstance(e.op, ast.Not)):
             return "bool"
         if isinstance(e, ast.BinOp):
@@ -69,10 +77,15 @@ class K:
             if self.ty.get(e.id) == "mv":
                 fail(e, self.fn, "missing value outside a comparison")
             return RENAME.get(e.id, e.id)
-        if isinstance(e, ast.Constant) and isinstance(e.value, int) and not isinstance(e.value, bool):
-            return f"({e.value})%Z" if e.value < 0 else f"{e.value}%Z"
-        if isinstance(e, ast.UnaryOp) and isinstance(e.op, ast.USub) and isinstance(e.operand, ast.Constant):
-            return f"(-{e.operand.value})%Z"
+        if isinstance(e, ast.Constant) and isinstance(e.value, bool):
+            return "true" if e.value else "false"
+        if isinstance(e, ast.Constant) and (isinstance(e.value, int) or (isinstance(e.value, float) and e.value.is_integer())):
+            v = int(e.value)
+            return f"({v})%Z" if v < 0 else f"{v}%Z"
+        if (isinstance(e, ast.UnaryOp) and isinstance(e.op, ast.USub) and isinstance(e.operand, ast.Constant)
+                and not isinstance(e.operand.value, bool)
+                and (isinstance(e.operand.value, int) or (isinstance(e.operand.value, float) and e.operand.value.is_integer()))):
+            return f"(-{int(e.operand.value)})%Z"
         if isinstance(e, ast.Subscript):
             arr = e.value
             if not isinstance(arr, ast.Name):
@@ -85,6 +98,8 @@ class K:
                 return f"(nth {i} {arr.id} NMV)"
             if t == "zarr":
                 return f"(nth {i} {arr.id} 0%Z)"
+            if t == "barr":
+                return f"(nth {i} {arr.id} false)"
             fail(e, self.fn, "subscript of a non-array")
         if isinstance(e, ast.UnaryOp) and isinstance(e.op, ast.Not):
             return f"(negb {self.ex(e.operand)})"
@@ -123,6 +138,14 @@ class K:
                 fail(e, self.fn, "chained comparison")
             a, b, op = e.left, e.comparators[0], e.ops[0]
             ta, tb = self.typ(a), self.typ(b)
+            if ta == "str" and tb == "strconst" and isinstance(op, ast.Eq):
+                table = STRINGS.get(a.id)
+                if table is None or b.value not in table:
+                    fail(e, self.fn, "unknown string option")
+                return f"({a.id} =? {table[b.value]})%Z"
+            if (ta == "bool" and isinstance(a, ast.Subscript) and isinstance(b, ast.Constant) and b.value == 1
+                    and not isinstance(b.value, bool) and isinstance(op, (ast.Eq, ast.NotEq))):
+                return self.ex(a) if isinstance(op, ast.Eq) else f"(negb {self.ex(a)})"
             if "mv" in (ta, tb):
                 x = b if ta == "mv" else a
                 if self.typ(x) != "nat" or not isinstance(op, (ast.Eq, ast.NotEq)):
@@ -166,7 +189,7 @@ class K:
             fail(node, self.fn, "store index is not a cell index")
         t = self.typ(tgt.value)
         tv = self.typ(val) if not isinstance(val, str) else None
-        if tv is not None and ((t == "zarr" and tv != "Z") or (t == "idxarr" and tv != "nat")):
+        if tv is not None and ((t == "zarr" and tv != "Z") or (t == "idxarr" and tv != "nat") or (t == "barr" and tv != "bool")):
             fail(node, self.fn, "element type mismatch in store")
         return arr, self.ex(tgt.slice)
 
@@ -237,7 +260,7 @@ class K:
 
     # ---------------------------------------------------------------- the kernel
     def size_of(self, e):
-        if isinstance(e, ast.Attribute) and e.attr == "size" and isinstance(e.value, ast.Name) and self.ty.get(e.value.id) in ("idx", "z"):
+        if isinstance(e, ast.Attribute) and e.attr == "size" and isinstance(e.value, ast.Name) and self.ty.get(e.value.id) in ("idx", "z", "b"):
             return f"(length {e.value.id})"
         fail(e, self.fn, "unsupported size expression")
 
@@ -260,9 +283,33 @@ class K:
             if isinstance(s, ast.For):
                 loop = pos
                 break
+            if isinstance(s, ast.Assert):
+                # `assert how in [...]`: the accepted strings must be exactly the table of the option
+                t = s.test
+                if not (isinstance(t, ast.Compare) and len(t.ops) == 1 and isinstance(t.ops[0], ast.In) and isinstance(t.left, ast.Name)
+                        and t.left.id in STRINGS and isinstance(t.comparators[0], ast.List)
+                        and sorted(c.value for c in t.comparators[0].elts if isinstance(c, ast.Constant)) == sorted(STRINGS[t.left.id])):
+                    fail(s, self.fn, "unsupported assertion")
+                continue
+            if (isinstance(s, ast.Assign) and len(s.targets) == 1 and isinstance(s.targets[0], ast.Subscript)
+                    and isinstance(s.targets[0].value, ast.Name) and s.targets[0].value.id in self.state
+                    and isinstance(s.targets[0].slice, ast.Name) and self.ty.get(s.targets[0].slice.id) == "seq"
+                    and self.ty[s.targets[0].value.id] == "z" and self.typ(s.value) == "Z"):
+                # arr[seq] = c
+                arr = s.targets[0].value.id
+                sqn = RENAME.get(s.targets[0].slice.id, s.targets[0].slice.id)
+                self.init[arr] = f"(fold_left (fun a i => upd a i {self.ex(s.value)}) {sqn} {self.init[arr]})"
+                continue
             if not (isinstance(s, ast.Assign) and len(s.targets) == 1 and isinstance(s.targets[0], ast.Name)):
                 fail(s, self.fn, "unsupported prologue statement")
             name, v = s.targets[0].id, s.value
+            if (isinstance(v, ast.Compare) and len(v.ops) == 1 and isinstance(v.ops[0], ast.NotEq) and isinstance(v.left, ast.Name)
+                    and self.ty.get(v.left.id) == "z" and isinstance(v.comparators[0], ast.Name) and self.ty.get(v.comparators[0].id) == "Z"):
+                # flags = data != nodata
+                self.ty[name] = "b"
+                self.init[name] = f"(map (fun v => negb (v =? {v.comparators[0].id})%Z) {v.left.id})"
+                self.state.append(name)
+                continue
             if isinstance(v, ast.Call) and isinstance(v.func, ast.Attribute) and v.func.attr == "copy" and isinstance(v.func.value, ast.Name) and not v.args:
                 src = v.func.value.id
                 if self.ty.get(src) not in ("z", "idx"):
@@ -324,13 +371,13 @@ class K:
             t0 = dict(KERNELS_T[(self.fn, fd.name)])[a]
             if t0 in ("mv",):
                 continue
-            params.append(f"({RENAME.get(a, a)} : {dict(idx='list nat', z='list Z', Z='Z', seq='list nat', omask='option (list bool)')[t0]})")
+            params.append(f"({RENAME.get(a, a)} : {dict(idx='list nat', z='list Z', b='list bool', Z='Z', str='Z', seq='list nat', omask='option (list bool)')[t0]})")
         dparams = [f"({nm} : list Z)" for nm, _ in self.derived]
         name = f"gen_{fd.name}"
         pat = self.tuple() if len(self.state) == 1 else "'" + self.tuple()
         stname = "st" if len(self.state) > 1 else self.state[0]
         bodytxt = self.stmts(list(f.body), 4)
-        sttype = " * ".join("list nat" if self.ty[a] == "idx" else "list Z" for a in self.state)
+        sttype = " * ".join({"idx": "list nat", "z": "list Z", "b": "list bool"}[self.ty[a]] for a in self.state)
         out = [f"(* {self.fn}: {fd.name} *)"]
         out.append(f"Definition {name}_step {' '.join(params + dparams)} (st : {sttype}) ({f.target.id} : nat) : {sttype} :=")
         out.append(f"  let NMV := length {idxarr[0]} in")
@@ -353,7 +400,7 @@ class K:
                 res = f"(fst {res})"
             if k > 0:
                 res = f"(snd {res})"
-        out.append(f"Definition {name} {' '.join(params)} : {'list nat' if self.ty[proj] == 'idx' else 'list Z'} :=")
+        out.append(f"Definition {name} {' '.join(params)} : {dict(idx='list nat', z='list Z', b='list bool')[self.ty[proj]]} :=")
         out.append(f"  let NMV := length {idxarr[0]} in")
         for nm, expr in self.derived:
             out.append(f"  let {nm} := {expr} in")
